@@ -394,3 +394,57 @@ package wire
 //@   loop 2 invariant [C18] frameHead(addr(buf), g.pkg.Name)
 //@   loop 3 invariant [C18] frameHead(addr(buf), g.pkg.Name)
 //@   loop 4 invariant [C18] frameHead(addr(buf), g.pkg.Name)
+
+// ---------------------------------------------------------------------------
+// Safety contracts (C20): results of the front-end functions, closure captures
+// ---------------------------------------------------------------------------
+
+//@ func newGen
+//@   ensures result != nil && fresh(result)
+//@ func newObjectCache
+//@   requires len(pkgs) > 0
+//@   ensures result != nil
+//@ func processBind
+//@   ensures result.1 == nil ==> result.0 != nil
+//@ func processValue
+//@   ensures result.1 == nil ==> result.0 != nil
+//@ func processInterfaceValue
+//@   ensures result.1 == nil ==> result.0 != nil
+//@ func processStructProvider
+//@   ensures result.1 == nil ==> result.0 != nil
+//@ func processStructLiteralProvider
+//@   ensures len(result.1) == 0 ==> result.0 != nil
+//@ func processFuncProvider
+//@   ensures len(result.1) == 0 ==> result.0 != nil
+//@ func checkField
+//@   ensures result.1 == nil ==> result.0 != nil
+
+//@ func (*providerSetSrc).description
+//@   requires wfSrc(p)
+//@ func (*providerSetSrc).trace
+//@   requires wfSrc(p)
+
+//@ func (*gen).inject$1
+//@   requires g != nil
+//@ func Load$1
+//@   requires fn != nil && fset != nil
+//@ func (*objectCache).get$1
+//@   requires oc != nil
+//@ func (*gen).qualifyImport$1
+//@   requires g != nil
+//@ func (*gen).rewritePkgRefs
+//@   requires node != nil
+//@ func (*gen).rewritePkgRefs$1
+//@   requires g != nil && info != nil
+//@ func (*gen).rewritePkgRefs$3
+//@   requires g != nil && info != nil && inNewNames != nil && newNames != nil
+//@ func (*gen).rewritePkgRefs$3$1
+//@   requires g != nil && inNewNames != nil
+//@ func (*gen).rewritePkgRefs$4
+//@   requires info != nil
+//@ func accessibleFrom$1
+//@   requires info != nil
+//@ func processValue$1
+//@   requires info != nil
+//@ func verifyAcyclic$1
+//@   requires 0 <= i && i < len(outputs) && 0 <= j && j < len(outputs) && outputs[i] != nil && outputs[j] != nil
